@@ -12,6 +12,41 @@ theorem query_sound (s : Sem) (files : List FileM) (q : Query) (r : Row)
     (h : r ∈ query s files q) : r ∈ allRows files ∧ rowMatches s q r = true :=
   query_sound_aux s files q r h
 
+/-- witness engine parameters: split-on-blank tokenizer, "pattern is a prefix of the text" as regex oracle,
+    exact-membership filters -/
+private def nv_sem : Sem := { tok := fieldsOn (fun c => c == ' '), re := fun p t => p.isPrefixOf t }
+private def nv_build : List Str → (Str → Bool) := fun l x => l.contains x
+/-- witness prefilter view of a row: partition `pid`, one indexed value under key "n" -/
+private def nv_pre (pid : String) (v : NumVal) : RowPre :=
+  { pid := pid, vals := fun f => if f = "n" then some v else none }
+/-- witness rows: `{"a":{"b":"hello world","n":42}}` and `{"a":{"b":"bye world"}}` in p1, `{"a":"hello"}` in p2 -/
+private def nv_r1 : Row :=
+  { json := .obj [("a".toList, .obj [("b".toList, .str "hello world".toList), ("n".toList, .num "42".toList)])],
+    pre := nv_pre "p1" (.int 42) }
+private def nv_r2 : Row :=
+  { json := .obj [("a".toList, .obj [("b".toList, .str "bye world".toList)])], pre := nv_pre "p1" (.int 7) }
+private def nv_r3 : Row :=
+  { json := .obj [("a".toList, .str "hello".toList)], pre := nv_pre "p2" (.int 45) }
+/-- witness store: two flushed files; the second has two blocks (partitions p1 and p2) -/
+private def nv_files : List FileM :=
+  [flushFile nv_sem nv_build ["n"] [("p2", [nv_r3])],
+   flushFile nv_sem nv_build ["n"] [("p1", [nv_r1, nv_r2]), ("p2", [nv_r3])]]
+/-- witness query: partition = p1 AND n ≥ 5; token "world" under a.b; regex a.b ~ "hel" -/
+private def nv_q : Query :=
+  { pre := some (.mk "AND" none
+      [.mk "CONDITION" (some { ConditionType := "PARTITION", PartitionCondition := some ({ Operator := "EQ", Value := "p1" } : StringCondition) }) [],
+       .mk "CONDITION" (some { ConditionType := "MINMAX", MinMaxFieldName := "n", MinMaxCondition := some ({ Operator := "GTE", Value := 5 } : NumericCondition) }) []]),
+    bloom := some (.mk "CONDITION" (some { Kind := "FIELD_TOKEN", Field := "a.b".toList, Token := "world".toList }) []),
+    regex := some (.mk "OR" none [.mk "CONDITION" (some { Field := "a.b".toList, Pattern := "hel".toList }) []]) }
+
+/-- non-vacuity: the three-part query over a two-file flushed store returns exactly the nested row (the other p1 row passes the bloom test but fails the regex) -/
+example :
+    nv_r1 ∈ query nv_sem nv_files nv_q ∧ query nv_sem nv_files nv_q = [nv_r1] ∧
+    (nv_r1 ∈ allRows nv_files ∧ rowMatches nv_sem nv_q nv_r1 = true) := by
+  have e : query nv_sem nv_files nv_q = [nv_r1] := by rfl
+  have h : nv_r1 ∈ query nv_sem nv_files nv_q := by rw [e]; exact .head _
+  exact ⟨h, e, query_sound nv_sem nv_files nv_q nv_r1 h⟩
+
 /-- Each stored row is returned at most as many times as it was stored: the answer is a sublist
     of the stored rows. -/
 theorem query_multiplicity (s : Sem) (files : List FileM) (q : Query) :
@@ -25,11 +60,66 @@ theorem C02_block_granular (s : Sem) (reOK : Str → Bool) (files : List FileM) 
     query s files q = (selectedRows files q).filter (rowMatches s q) :=
   block_granular_aux s reOK files q hwf hv
 
+/-- the witness store bundled with its certificate: both flushed files are index-covered -/
+private def nv_store : { files : List FileM // ∀ f ∈ files, FileWF nv_sem f } := ⟨nv_files, by
+  have hfc : ∀ l l' : List Str, (∀ x ∈ l', l.contains x = true) → FiltCoversList (some (nv_build l)) l' := by
+    intro l l' h g hg; cases hg; exact h
+  have hFC : ∀ all en : Entries, (∀ x ∈ en.fields, all.fields.contains x = true) →
+      (∀ x ∈ en.tokens, all.tokens.contains x = true) →
+      (∀ x ∈ en.fieldTokens, all.fieldTokens.contains x = true) → FiltCovers (buildFilt nv_build all) en :=
+    fun _ _ h1 h2 h3 => ⟨hfc _ _ h1, hfc _ _ h2, hfc _ _ h3⟩
+  have hCov : ∀ pid v (m : DataBlockMetadata) (mm : MinMaxIndex), m.PartitionID = pid →
+      lookupMM "n" m.MinMaxIndexes = some mm → mm.Min ≤ (toRange v).1 → (toRange v).2 ≤ mm.Max →
+      Covers m (nv_pre pid v) := by
+    intro pid v m mm h1 h2 h3 h4
+    refine ⟨h1, fun f w h => ?_⟩
+    simp only [nv_pre] at h; split at h
+    · subst f; cases h; exact ⟨mm, h2, h3, h4⟩
+    · cases h
+  intro f hf b hb
+  simp only [nv_files, List.mem_cons, List.mem_nil_iff, or_false] at hf
+  rcases hf with rfl | rfl <;>
+    simp only [flushFile, List.map_cons, List.map_nil, List.mem_cons, List.mem_nil_iff, or_false] at hb
+  · subst hb
+    refine ⟨fun r hr => ?_, fun r hr => ?_⟩ <;>
+      (simp only [mkBlock, List.mem_cons, List.mem_nil_iff, or_false] at hr; subst hr)
+    · exact ⟨hCov _ _ _ ⟨45, 45⟩ rfl (by decide) (by decide) (by decide), hFC _ _ (by decide) (by decide) (by decide)⟩
+    · exact hFC _ _ (by decide) (by decide) (by decide)
+  · rcases hb with rfl | rfl
+    · refine ⟨fun r hr => ?_, fun r hr => ?_⟩ <;>
+        (simp only [mkBlock, List.mem_cons, List.mem_nil_iff, or_false] at hr; rcases hr with rfl | rfl)
+      · exact ⟨hCov _ _ _ ⟨7, 42⟩ rfl (by decide) (by decide) (by decide), hFC _ _ (by decide) (by decide) (by decide)⟩
+      · exact ⟨hCov _ _ _ ⟨7, 42⟩ rfl (by decide) (by decide) (by decide), hFC _ _ (by decide) (by decide) (by decide)⟩
+      · exact hFC _ _ (by decide) (by decide) (by decide)
+      · exact hFC _ _ (by decide) (by decide) (by decide)
+    · refine ⟨fun r hr => ?_, fun r hr => ?_⟩ <;>
+        (simp only [mkBlock, List.mem_cons, List.mem_nil_iff, or_false] at hr; subst hr)
+      · exact ⟨hCov _ _ _ ⟨45, 45⟩ rfl (by decide) (by decide) (by decide), hFC _ _ (by decide) (by decide) (by decide)⟩
+      · exact hFC _ _ (by decide) (by decide) (by decide)⟩
+
+/-- non-vacuity: the flushed files are index-covered and the prefilter query compiles; the prefilter keeps one block (partition p1, two rows) -/
+example :
+    (∀ f ∈ nv_files, FileWF nv_sem f) ∧ nv_q.Valid (fun p => !p.isEmpty) ∧
+    query nv_sem nv_files nv_q = (selectedRows nv_files nv_q).filter (rowMatches nv_sem nv_q) ∧
+    selectedRows nv_files nv_q = [nv_r1, nv_r2] := by
+  have hv : nv_q.Valid (fun p => !p.isEmpty) := by intro e he; cases he; decide
+  exact ⟨nv_store.2, hv, C02_block_granular nv_sem _ nv_files nv_q nv_store.2 hv, by rfl⟩
+
 /-- Without a prefilter the answer equals exactly the matching stored rows. -/
 theorem C02_exact_no_prefilter (s : Sem) (reOK : Str → Bool) (files : List FileM) (q : Query)
     (hwf : ∀ f ∈ files, FileWF s f) (hv : q.Valid reOK) (hpre : q.pre = none) :
     query s files q = (allRows files).filter (rowMatches s q) :=
   exact_no_prefilter_aux s reOK files q hwf hv hpre
+
+/-- non-vacuity: the same store and the query without its prefilter meet all three premises; the answer is the matching rows among the four stored rows -/
+example :
+    let q0 : Query := { nv_q with pre := none }
+    (∀ f ∈ nv_files, FileWF nv_sem f) ∧ q0.Valid (fun p => !p.isEmpty) ∧ q0.pre = none ∧
+    query nv_sem nv_files q0 = (allRows nv_files).filter (rowMatches nv_sem q0) ∧
+    allRows nv_files = [nv_r3, nv_r1, nv_r2, nv_r3] := by
+  intro q0
+  have hv : q0.Valid (fun p => !p.isEmpty) := by intro e he; cases he; decide
+  exact ⟨nv_store.2, hv, rfl, C02_exact_no_prefilter nv_sem _ nv_files q0 nv_store.2 hv rfl, by rfl⟩
 
 /-- Strict leaves: a partition condition is false on a block without a partition ID … -/
 theorem missing_partition_false (m : DataBlockMetadata) (c : PreCond) (sc : StringCondition)
@@ -37,10 +127,30 @@ theorem missing_partition_false (m : DataBlockMetadata) (c : PreCond) (sc : Stri
     evalPreCond m c = false :=
   missing_partition_false_aux m c sc hm ht hc
 
+/-- non-vacuity: a block with a minmax index but no partition ID, under `partition ≠ "x"` (true of the empty ID under plain string comparison) -/
+example :
+    let m : DataBlockMetadata := { Rows := 3, MinMaxIndexes := [("n", ⟨1, 9⟩)] }
+    let sc : StringCondition := { Operator := "NE", Value := "x" }
+    let c : PreCond := { ConditionType := "PARTITION", PartitionCondition := some sc }
+    m.PartitionID = "" ∧ c.ConditionType = "PARTITION" ∧ c.PartitionCondition = some sc ∧
+    evalString m.PartitionID sc = true ∧ evalPreCond m c = false := by
+  intro m sc c
+  exact ⟨rfl, rfl, rfl, by decide, missing_partition_false m c sc rfl rfl rfl⟩
+
 /-- … and a minmax condition is false on a block that does not list the key. -/
 theorem missing_minmax_false (m : DataBlockMetadata) (c : PreCond) (nc : NumericCondition)
     (hm : lookupMM c.MinMaxFieldName m.MinMaxIndexes = none) (ht : c.ConditionType = "MINMAX")
     (hc : c.MinMaxCondition = some nc) : evalPreCond m c = false :=
   missing_minmax_false_aux m c nc hm ht hc
+
+/-- non-vacuity: a partitioned block listing only key "n", under `k NOT_IN [3]` (true of every listed range) -/
+example :
+    let m : DataBlockMetadata := { PartitionID := "p1", Rows := 3, MinMaxIndexes := [("n", ⟨1, 9⟩)] }
+    let nc : NumericCondition := { Operator := "NOT_IN", Values := [3] }
+    let c : PreCond := { ConditionType := "MINMAX", MinMaxFieldName := "k", MinMaxCondition := some nc }
+    lookupMM c.MinMaxFieldName m.MinMaxIndexes = none ∧ c.ConditionType = "MINMAX" ∧
+    c.MinMaxCondition = some nc ∧ evalPreCond m c = false := by
+  intro m nc c
+  exact ⟨by decide, rfl, rfl, missing_minmax_false m c nc (by decide) rfl rfl⟩
 
 end BloomVerif.C02
